@@ -451,10 +451,55 @@ func fieldStores(a ssa.Value) map[string][]ssa.Value {
 	if refs == nil {
 		return out
 	}
+	// (a store that is overwritten further down the same block, with nothing in between that could read it - a member
+	// copied along with the whole value and then set: `info := s.info; info.Interfaces = names` - is not a value the
+	// member ever shows)
+	byField := map[int][]*ssa.Store{}
 	for _, r := range *refs {
 		if fa, ok := r.(*ssa.FieldAddr); ok && fa.X == a {
 			for _, rr := range *fa.Referrers() {
 				if st, ok := rr.(*ssa.Store); ok && st.Addr == ssa.Value(fa) {
+					byField[fa.Field] = append(byField[fa.Field], st)
+				}
+			}
+		}
+	}
+	dead := map[*ssa.Store]bool{}
+	for _, sts := range byField {
+		for _, s1 := range sts {
+			for _, s2 := range sts {
+				if s1 == s2 || s1.Block() != s2.Block() {
+					continue
+				}
+				i1, i2 := instrIndex(s1), instrIndex(s2)
+				if i1 < 0 || i2 < 0 || i1 >= i2 {
+					continue
+				}
+				clean := true
+				for _, in := range s1.Block().Instrs[i1+1 : i2] {
+					switch x := in.(type) {
+					case ssa.CallInstruction:
+						clean = false
+					case *ssa.UnOp:
+						if x.Op == token.MUL {
+							if x.X == a {
+								clean = false
+							} else if fa, ok := x.X.(*ssa.FieldAddr); ok && fa.X == a {
+								clean = false
+							}
+						}
+					}
+				}
+				if clean {
+					dead[s1] = true
+				}
+			}
+		}
+	}
+	for _, r := range *refs {
+		if fa, ok := r.(*ssa.FieldAddr); ok && fa.X == a {
+			for _, rr := range *fa.Referrers() {
+				if st, ok := rr.(*ssa.Store); ok && st.Addr == ssa.Value(fa) && !dead[st] {
 					n := fieldName(fa.X, fa.Field)
 					out[n] = append(out[n], st.Val)
 				}
